@@ -3,8 +3,9 @@
 P=$(readlink -f "$1"); shift
 HERE=$(cd $(dirname $0)/..; pwd)
 D=$(mktemp -d /tmp/altrepo.XXXXXX)
+B=$(cd $(dirname $0)/..; pwd)/.build/alt-$(echo $D | tr / _)
 git -C /repo worktree add -q --detach $D HEAD || exit 2
-trap 'git -C /repo worktree remove --force '"$D"' 2>/dev/null' EXIT
+trap 'git -C /repo worktree remove --force '"$D"' 2>/dev/null; rm -rf '"$B"'' EXIT
 git -C $D apply "$P" || { echo "patch does not apply"; exit 2; }
 mkdir -p $HERE/.build/alt-root; cp $HERE/known_findings.json $HERE/.build/alt-root/
 for id in "$@"; do
